@@ -89,6 +89,12 @@ pub struct Globals {
     /// The callback pointer of the first registration; the operation is pinned,
     /// so every later registration must hand over the same pointer.
     pub expect_ptr: *mut c_void,
+    /// The operation (or its owner) has released the handle `expect_waitable`
+    /// (`subtask.drop`, `{future,stream}.drop-*`): its index is dead.  A task
+    /// that is then asked to register / unregister that waitable would call
+    /// `waitable.join` on a closed handle -- a trap in a real host, or, once
+    /// the index is re-used, a join/unjoin of somebody else's waitable.
+    pub handle_closed: bool,
 }
 pub static mut G: Globals = Globals {
     magic: 0x6d6f_636b_5f74_6b01,
@@ -97,6 +103,7 @@ pub static mut G: Globals = Globals {
     expect_waitable: 0,
     op_alive: true,
     expect_ptr: ptr::null_mut(),
+    handle_closed: false,
 };
 
 /// Task pointers are addresses of bytes of this array (never dereferenced by
@@ -168,6 +175,10 @@ pub unsafe extern "C" fn t_register<const T: usize>(
     cb_ptr: *mut c_void,
 ) -> *mut c_void {
     check_ptr_live::<T>(p);
+    assert!(
+        !(G.handle_closed && waitable == G.expect_waitable),
+        "waitable_register names a handle the operation already released (waitable.join on a closed index)"
+    );
     assert!(G.op_alive, "registration made after the operation's memory was released");
     assert!(!cb_ptr.is_null());
     if G.expect_ptr.is_null() {
@@ -201,6 +212,10 @@ pub unsafe extern "C" fn t_register<const T: usize>(
 
 pub unsafe extern "C" fn t_unregister<const T: usize>(p: *mut c_void, waitable: u32) -> *mut c_void {
     check_ptr_live::<T>(p);
+    assert!(
+        !(G.handle_closed && waitable == G.expect_waitable),
+        "waitable_unregister names a handle the operation already released (waitable.join on a closed index)"
+    );
     L[T].n_unregister += 1;
     if L[T].reg_set && L[T].reg_waitable == waitable {
         L[T].reg_set = false;
